@@ -101,6 +101,7 @@ type gstate struct {
 	initial bool // pointer parameter: may still hold the caller's value
 	entry   bool // may still hold the value it had at the head of the loop being analysed
 	destr   bool // limbs currently bound to <name>0 .. <name>(n-1)
+	carry   bool // uint64: the current value is 0 or 1 (a carry / borrow, see carry.go)
 }
 
 type genv struct {
@@ -169,6 +170,7 @@ func (e *genv) merge(a, b *genv) {
 		s.initial = sa.initial || sb.initial
 		s.entry = sa.entry || sb.entry
 		s.destr = false
+		s.carry = sa.carry && sb.carry
 	}
 }
 
@@ -256,7 +258,7 @@ func (g *gtrans) noteRead(e *genv, at ast.Node, v *gv) {
 // noteWrite: v gets a new value here (a shadowing let has been emitted).
 func (g *gtrans) noteWrite(e *genv, v *gv) {
 	s := e.st[v]
-	s.defined, s.initial, s.entry, s.destr = true, false, false, false
+	s.defined, s.initial, s.entry, s.destr, s.carry = true, false, false, false, false
 	g.checkGuards(v)
 	if g.pure > 0 {
 		panic(transErr{g.key + ": assignment to " + v.name + " inside the right operand of && / || (conditional evaluation is not modelled)"})
